@@ -22,6 +22,23 @@ Passes(n) == {j \in 1..Len(WindowSizes) : \A k \in 1..(j - 1) : WindowSizes[k] <
 CallCount(n, len) == Cardinality({<<j, i>> \in Passes(n) \X (0..(n - 1)) :
                                     i \in ChunkStarts(n, WindowSizes[j]) /\ ChunkLen(n, WindowSizes[j], i) = len})
 TotalCalls(n) == Cardinality({<<j, i>> \in Passes(n) \X (0..(n - 1)) : i \in ChunkStarts(n, WindowSizes[j])})
+(* ---------- the LCG path: _HiddenNumberProblemSubsets with the DEFAULT strategy (SINGLE | SLIDING | INCLUDE_KEY) -------- *)
+\* For one shipped model (sample_size S, min_signatures m, sliding_window_size w) and a group of k unique signatures the solver
+\* calls are pairs <<number of signatures handed over, number of constants used>>:
+\*   k > w      : sliding windows k - w + 1 times <<w, (S-1) div w + 1>>, plus once <<min(k, 2S), (S-1) div min(k, 2S) + 1>>
+\*   m <= k <= w: once <<k, (S-1) div k + 1>>
+\*   k = m - 1  : once <<k + 1, (S-1) div (k + 1) + 1>>   (the key itself is included as an extra sample)
+\*   k < m - 1  : nothing
+NumConst(S, len) == ((S - 1) \div len) + 1
+LcgCallCount(k, S, m, w, len, nc) ==
+  IF k > w THEN (IF len = w /\ nc = NumConst(S, w) THEN k - w + 1 ELSE 0)
+                + (IF len = Min2(k, 2 * S) /\ nc = NumConst(S, Min2(k, 2 * S)) THEN 1 ELSE 0)
+  ELSE IF k >= m THEN (IF len = k /\ nc = NumConst(S, k) THEN 1 ELSE 0)
+  ELSE IF k = m - 1 THEN (IF len = k + 1 /\ nc = NumConst(S, k + 1) THEN 1 ELSE 0)
+  ELSE 0
+\* every length is covered by exactly one branch; a group at least as large as the sliding window is always examined
+LcgCaseSplit(k, S, m, w) == LET total == IF k > w THEN k - w + 2 ELSE IF k >= m - 1 THEN 1 ELSE 0 IN
+                            (k >= m - 1 <=> total >= 1) /\ (k >= w /\ w >= m => total >= 1)
 \* the documented margins
 MarginOk(cls, uniq, bias, curvebits) ==
   CASE cls \in {"msb", "prefix", "postfix"} -> bias >= 16 /\ uniq * bias >= 2 * curvebits
@@ -47,4 +64,15 @@ WholeGroupSeen == (n >= 1 /\ n <= 120) => CallCount(n, n) >= 1
 SingleCallSmall == (n >= 1 /\ n <= 24) => TotalCalls(n) = 1
 NoCallsWhenEmpty == n = 0 => TotalCalls(n) = 0
 PassesPrefix == \A j \in Passes(n) : \A k \in 1..j : k \in Passes(n)
+\* the LCG case split for the shipped shapes of (S, m, w): every k falls in exactly one branch and the call sizes add up
+LcgSplitOk == \A mw \in {<<24, 2, 2>>, <<12, 3, 3>>, <<20, 5, 5>>, <<24, 5, 6>>, <<12, 2, 3>>, <<15, 4, 4>>, <<120, 2, 2>>} :
+                 LET S == mw[1]
+                     m == mw[2]
+                     w == mw[3]
+                     k == n % 40
+                     calls == {<<len, nc>> \in (1..(2 * S + 1)) \X (1..S) : LcgCallCount(k, S, m, w, len, nc) > 0}
+                 IN /\ LcgCaseSplit(k, S, m, w)
+                    /\ (k < m - 1 => calls = {})
+                    /\ (k >= m - 1 => calls # {})
+                    /\ \A c \in calls : c[1] * c[2] >= Min2(S, c[1] * c[2])
 =============================================================================
